@@ -483,6 +483,15 @@ class SiteTracer(Tracer):
                         self.guards.append((c, False))
                         pushed += 1
                         continue
+                if ee.get("k") == "if" and strip(ee["c"]).get("k") == "letx" and "e" not in ee and diverges(ee["t"]):
+                    # `if let P = v { ..; return/break/continue }`: the rest of the block runs when P did not match
+                    self._letx_guard = None
+                    self.eval(e, env)
+                    pushed += self._flushed()
+                    if isinstance(self._letx_guard, Poly):
+                        self.guards.append((self._letx_guard, False))
+                        pushed += 1
+                    continue
                 v = self.eval(e, env)
                 pushed += self._flushed()
             if n.get("e") is not None:
